@@ -1,8 +1,8 @@
 CONSTANTS
-  D4 = {32, 33, 34, 36, 65534}
-  G4 = {0, 1, 2, 3}
-  G2 = {0, 1, 2}
-  DL2 = {0, 5, -2}
+  D4 = {32, 33, 35, 65534}
+  G4 = {0, 1, 2}
+  G2 = {0, 1}
+  DL2 = {0, 5}
   Cases <- MCCases
   Dev <- NoDev
 INIT Init
